@@ -76,6 +76,11 @@ CHECKS = {
     text="With the sound skeleton analysis (theorem over all skeletons/executions) the kernel checks on the skeletons re-read from the sources: whatever Exception subclass is raised anywhere inside the try of Compiler.compile, every path ends in a return of the result or an {'error': ..} dictionary; compile_code (CompileOptions value/None, str source) always ends in that return; after the constexpr child is started, every path on which communicate() did not complete kills the child before leaving. The implementation is exercised by fault enumeration: prefixes of the repository's programs (keystroke model), mutations, random Unicode, every unsupported construct, recursion, constexpr bodies that fail/print/never end/sleep/exit/return non-JSON/spawn; each call under a wall-clock limit, followed by a scan for surviving child processes; verdict shape, statistics and error position (inside the submitted text) are checked.",
     note="Partial: wall-clock bounds and OS process state are runtime behaviour that the model cannot exhibit (exercised, not proved). Assumed: exception handlers do not raise; BaseException-only exceptions not modelled; option dictionaries with unknown keys and source mappings without \"\" are API misuse outside the property's domain. Trusted: Coq kernel; SkelSem.v; translator skeletons.py.",
     design="4 C10"),
+ "C11": dict(
+    category="proof", technique="Coq: state-machine model of the process-wide state with an invariant proved by induction over request histories (cache is a subset of the evaluator's graph) + regenerated inventory of module-level mutable state + history runs against fresh-process results",
+    text="Kernel-checked for every history and request, for any evaluator and any compiler that uses the evaluator only by calling it: the result after the history equals the result in a fresh process (invariant: the constexpr cache only holds (script, value of that script); the output mode is overwritten from the request before use; the hash set is filled before first use). The inventory of module-level mutable state (rebound globals, mutated containers, attribute writes through modules) is regenerated from the package on every run and proved equal to the list the model accounts for; the skeleton of compile_code is checked to copy the options before the directive scanner writes and to set the output mode before compiling. Histories of 5-60 requests from a pool (pragma-carrying sources with contradicting caller options, compact/verbose alternation, constexpr users, failing and multi-module requests) are served by one process each and compared with fresh-process results; the caller's options and sources are compared before/after.",
+    note="Trusted: Coq kernel; GlobalState.v (compiler as an oracle, deterministic evaluator); translator globals_.py. State held inside objects (device singletons) is not inventoried statically; covered by the history runs only.",
+    design="4 C11"),
 }
 
 NOT_YET = {}
